@@ -7,7 +7,7 @@ def pbt(harness, variant="asan", libs=("rapidcheck",), quick=None, thorough=None
 
 PROPS = {}
 NOT_APPLICABLE = {}
-HOOK_COMMITS = []
+HOOK_COMMITS = ["b0288d2"]
 
 PROPS["C11"] = dict(
     title="Every encoding decodes its own output back to the original sequence",
@@ -136,4 +136,29 @@ PROPS["C20"] = dict(
     assumptions=["values are hashed as their PLAIN encoding (little-endian fixed width / raw bytes) with seed 0"],
     engines=[pbt("c20_bloom", libs=["rapidcheck", "xxhash"], quick=dict(cases=4000, size=100, enum=1, procs=4), thorough=dict(cases=25000, size=200, enum=2, procs=16))],
     min_evaluations=dict(quick=8000, thorough=200000),
+)
+
+
+_MASKS = ["none", "sse2,sse41,sse42", "sse2,sse41,sse42,avx,avx2", "sse2,sse41,sse42,avx,avx2,avx512f",
+          "sse2,sse41,sse42,avx,avx2,avx512f,avx512bw,avx512vl,avx512vbmi", "avx2", "avx512f", "sse2,avx512f,avx512bw,avx512vl"]
+PROPS["C15"] = dict(
+    title="Every SIMD kernel equals its scalar definition at every ISA level",
+    level="exploration",
+    design_ref="DESIGN.md section 8, C15",
+    level_text=("Bounded-exhaustive enumeration (every kernel x ISA variant x count 0..130 (thorough 0..200) x buffer placement: end flush against a "
+                "PROT_NONE page, or start behind one at 16 (thorough 64) misalignments x 3 value patterns) plus random larger counts, against textbook "
+                "scalar definitions written in the harness; the dispatcher is run in one process per CPU capability mask (hook CARQUET_VERIF_CPU_CAP), "
+                "including inconsistent masks. Guard pages make any out-of-array read or write a fault; canaries catch writes on the unguarded side. "
+                "Exhaustive only inside the stated count/misalignment bounds; values are sampled."),
+    level_note="kernels are built as shipped (gcc -O2, prod variant); ISA variants the checking host cannot execute are skipped and listed (this image has AVX-512F/BW/VL); NEON/SVE are out of reach on x86",
+    technique="bounded-exhaustive enumeration over count x alignment + random generation (rapidcheck), differential against scalar reference definitions, guard-page memory oracle, one process per dispatcher capability mask",
+    rule=("case = (kernel, variant in sse/avx2/avx512/dispatch[mask], count, placement, src/dst misalignment, pattern, seed). Kernel domains follow the callers: "
+          "gather indices < dictionary size, pack_bools inputs 0/1, levels in [0,max_def], zeroed null bitmap, match_copy src = dst - offset (offset >= 1) in one buffer, "
+          "match < p <= limit, non-overlapping memcpy, wrapping prefix sums, fixed-width unpackers get exactly N*width/8 input bytes. Non-trivial: count not a "
+          "multiple of the variant's byte lane count and (misaligned start or end flush against the guard page)."),
+    assumptions=["the scalar definitions in harness/c15_simd.cpp are the kernels' specification (they mirror dispatch.c's scalar fallbacks, which are themselves checked under the 'none' mask)"],
+    engines=[pbt("c15_simd", variant="prod", quick=dict(cases=6000, size=100, enum=1, procs=2), thorough=dict(cases=30000, size=100, enum=2, procs=4))] +
+            [pbt("c15_simd", variant="prod", name="c15_dispatch_%d" % i, env={"CARQUET_VERIF_CPU_CAP": m},
+                 quick=dict(cases=1500, size=100, enum=1, procs=1), thorough=dict(cases=10000, size=100, enum=2, procs=1)) for i, m in enumerate(_MASKS)],
+    min_evaluations=dict(quick=300000, thorough=1500000),
 )
